@@ -275,6 +275,7 @@ for _n, _f in [
     ("square", lambda a: E.mul(a, a)),
     ("relu", lambda a: E.max_(a, E.ZERO)),
     ("positive", lambda a: a),
+    ("frac", lambda a: E.sub(a, E.trunc(a))),
 ]:
     _unary(_n, _f)
 
@@ -515,6 +516,44 @@ def _fill(st, func, args, kwargs, out):
 @sem("zero")
 def _zero(st, func, args, kwargs, out):
     return np.full(tuple(out.shape), E.FALSE if out.dtype == torch.bool else E.ZERO, dtype=object)
+
+
+def _reduce_enum(arr, red):
+    flat = list(_obj(arr).ravel())
+    if red == 0:
+        return arr
+    tot = E.add(*flat) if flat else E.ZERO
+    return _obj(E.mul(tot, Fraction(1, len(flat))) if red == 1 else tot)
+
+
+@sem("mse_loss")
+def _mse_loss(st, func, args, kwargs, out):
+    d = _b(E.sub)(PN(st, args[0]), PN(st, args[1]))
+    return _reduce_enum(_b(E.mul)(d, d), args[2] if len(args) > 2 else kwargs.get("reduction", 1))
+
+
+@sem("l1_loss")
+def _l1_loss(st, func, args, kwargs, out):
+    d = _u(E.abs_)(_b(E.sub)(PN(st, args[0]), PN(st, args[1])))
+    return _reduce_enum(d, args[2] if len(args) > 2 else kwargs.get("reduction", 1))
+
+
+@sem("huber_loss")
+def _huber_loss(st, func, args, kwargs, out):
+    delta = E.const(E.rationalize(args[3] if len(args) > 3 else kwargs.get("delta", 1.0)))
+    z = _u(E.abs_)(_b(E.sub)(PN(st, args[0]), PN(st, args[1])))
+    f = _u(lambda v: E.ite(E.lt(v, delta), E.mul(Fraction(1, 2), v, v), E.mul(delta, E.sub(v, E.mul(Fraction(1, 2), delta)))))
+    return _reduce_enum(f(z), args[2] if len(args) > 2 else kwargs.get("reduction", 1))
+
+
+@sem("smooth_l1_loss")
+def _smooth_l1_loss(st, func, args, kwargs, out):
+    beta = E.const(E.rationalize(args[3] if len(args) > 3 else kwargs.get("beta", 1.0)))
+    z = _u(E.abs_)(_b(E.sub)(PN(st, args[0]), PN(st, args[1])))
+    if beta.args[0] == 0:
+        return _reduce_enum(z, args[2] if len(args) > 2 else kwargs.get("reduction", 1))
+    f = _u(lambda v: E.ite(E.lt(v, beta), E.div(E.mul(Fraction(1, 2), v, v), beta), E.sub(v, E.mul(Fraction(1, 2), beta))))
+    return _reduce_enum(f(z), args[2] if len(args) > 2 else kwargs.get("reduction", 1))
 
 
 # ---- dtype conversion / copies --------------------------------------------------------------------
